@@ -19,7 +19,6 @@ theorem el_head : Tea.Gen.fact_el_head = Tea.Doc.fact_el_head := rfl
 theorem el_tail : Tea.Gen.fact_el_tail = Tea.Doc.fact_el_tail := rfl
 theorem body_Program_Send : Tea.Gen.fact_body_Program_Send = Tea.Doc.fact_body_Program_Send := rfl
 theorem body_Program_handleCommands : Tea.Gen.fact_body_Program_handleCommands = Tea.Doc.fact_body_Program_handleCommands := rfl
-theorem body_Sequence : Tea.Gen.fact_body_Sequence = Tea.Doc.fact_body_Sequence := rfl
 theorem el_case_sequenceMsg : Tea.Gen.fact_el_case_sequenceMsg = Tea.Doc.fact_el_case_sequenceMsg := rfl
 
 end Tea.Props.Bridge.C03
